@@ -725,7 +725,8 @@ func runFuzz(id string, pc propCfg, harness, work, replays string, ft fuzzTarget
 	pkgDir := filepath.Join(harness, pc.Pkg)
 	crashDir := filepath.Join(pkgDir, "testdata", "fuzz", ft.Name)
 	before := listFiles(crashDir)
-	args := []string{"test", "-tags", "verif", "-run", "^$", "-fuzz", "^" + ft.Name + "$", "-fuzztime", ft.Dur.String(), "-test.fuzzcachedir", filepath.Join(fuzzCacheDir(), id, ft.Name), pc.Pkg}
+	// the package must precede -test.fuzzcachedir: go test stops parsing its own flags there
+	args := []string{"test", "-tags", "verif", "-run", "^$", "-fuzz", "^" + ft.Name + "$", "-fuzztime", ft.Dur.String(), pc.Pkg, "-test.fuzzcachedir", filepath.Join(fuzzCacheDir(), id, ft.Name)}
 	cmd := exec.Command("go", args...)
 	cmd.Dir = harness
 	cmd.Env = append(goEnv(), "VERIF_OUT="+filepath.Join(work, "fuzz"), "VERIF_KNOWN="+filepath.Join(root(), "known_findings.json"))
